@@ -84,7 +84,7 @@ int main(int argc, char **argv) {
             auto precs = list(t[1]); unsigned long long lo = (unsigned long long)num(t[2]), hi = (unsigned long long)num(t[3]), stride = (unsigned long long)num(t[4]);
             unsigned long long count = 0, suspects = 0; unsigned char *buf = (unsigned char *)malloc(BUFSZ);
             for (unsigned long long b = lo; b < hi; ++b) {
-                if ((b & 4095) == 0) alarm(2);
+                if ((b & 4095) == 0) { unsigned keep = g_op_timeout; g_op_timeout = 2; watchdog(true); g_op_timeout = keep; }   // 2 s of CPU per 4096 patterns
                 unsigned bits = (unsigned)b; float f; memcpy(&f, &bits, 4);
                 for (auto p : precs) {
                     memset(buf, 0xA5, BUFSZ); char *r = igris_f32toa(f, (char *)buf, (int8_t)p); ++count;
